@@ -483,6 +483,7 @@ type replayCase struct {
 	Lane     int    `json:"lane"`
 	Mod      string `json:"mod,omitempty"`
 	ExecB    string `json:"exec_b_hex,omitempty"`
+	MaskMode int    `json:"uniform_lane_masks,omitempty"` // 1 = VCC / mask pair all ones, 2 = all zero
 }
 
 type failure struct {
@@ -504,6 +505,7 @@ func fail(order int64, c *caseT, cause, msg string, rc replayCase) {
 	sig := fmt.Sprintf("%s/%s/%s/%s", c.Op.Arch, fmtLabel(c.Op), c.Op.Name, cause)
 	rc.Arch, rc.Format, rc.Opcode, rc.Inst, rc.Variant = c.Op.Arch.String(), c.Op.Format.String(), c.Op.Opcode, c.Op.Name, c.Var.Name
 	rc.Encoding = encHex(c)
+	rc.MaskMode = c.Shape.MaskMode
 	failMu.Lock()
 	defer failMu.Unlock()
 	if f, ok := failures[sig]; ok && f.order <= order {
@@ -1134,6 +1136,16 @@ func main() {
 						work = append(work, unitT{c: c, p: p, e: e, poison: true})
 					}
 				}
+				if c.Op.ReadsVCC || c.Op.MaskOp {
+					// wavefront-uniform conditions: the lane mask the instruction reads is all ones / all zero
+					for _, mode := range []int{1, 2} {
+						cu := *c
+						cu.Shape.MaskMode = mode
+						for e := range cfg.execs {
+							work = append(work, unitT{c: &cu, p: p, e: e})
+						}
+					}
+				}
 				if c.Kind == 2 && c.Op.Format == lib.FLAT && !c.Var.Alias {
 					for e := range denseExecs {
 						work = append(work, unitT{c: c, p: p, e: e, dense: true})
@@ -1364,6 +1376,11 @@ func replay(r *harness.Run, ctx *wctx, vd, sd *discovery) {
 	if c == nil {
 		fmt.Println("INFRASTRUCTURE ERROR: replay case not found among the discovered opcode variants (is the opcode still implemented?)")
 		os.Exit(2)
+	}
+	if rc.MaskMode != 0 {
+		cu := *c
+		cu.Shape.MaskMode = rc.MaskMode
+		c = &cu
 	}
 	var exec, execB uint64
 	fmt.Sscanf(rc.Exec, "0x%x", &exec)
